@@ -57,7 +57,10 @@ def run(prop: str, rep: common.Report, *, exotic: bool = False, coerce: bool = F
     thorough = common.tier() == "thorough"
     tiers = list(tiers_thorough if thorough else tiers_quick)
     for dev, inv in (negative or {}).items():
-        cfg = (MC_CFG % "u").replace("Deviations = {}", 'Deviations = {"%s"}' % dev)
+        ntier = "u"
+        if isinstance(inv, tuple):
+            inv, ntier = inv
+        cfg = (MC_CFG % ntier).replace("Deviations = {}", 'Deviations = {"%s"}' % dev)
         res = tlc.run_tlc("MC_Deser", cfg, workers=16, env={"EMIT": "0"}, timeout_s=3000)
         rep.set("negative_check_" + dev, res.violated or "NOT VIOLATED")
         if res.violated != inv:
